@@ -137,7 +137,7 @@ def run_case(ctx, i, rng):
                 except ValueError:
                     pass
     uniquify(n)
-    if Universe.of(n).size() > 6000:
+    if Universe.of(n).size() > 2500:
         ctx.count("discarded_too_large")        # (flatten under the invariant hooks is quadratic: keep the case inside its time slot)
         return
     if i % 5 == 4 or i % 7 == 3:
